@@ -499,7 +499,7 @@ class Model:
         for tgt in sorted(ti.input_names):
             rel = tgt[len(ti.ns) + 2:] if ti.ns else tgt
             ins.append(f'{rel}={self.key(tgt)}')
-        return f'{self.param_text(fn)}$$${"###".join(ins)}'
+        return f'{self.param_text(fn)}$$${"###".join(ins)}'.replace('<mod>', self.modlast)
 
     def key(self, fn):
         cache = self.__dict__.setdefault('_keys', {})
